@@ -42,7 +42,7 @@ fn lang_unspec(al: &str) -> bool {
         let language = full.split('-').next().unwrap_or("").to_string();
         if get_highest_quality_language(language).is_none() { continue; }
         if let Some(q) = it.next() {
-            let t = q.trim().trim_start_matches("q=");
+            let t = q.trim().trim_start_matches("q=").trim_start_matches("Q=");
             if t.parse::<f32>().is_ok() && !simple_decimal(t) { return true; }
         }
     }
